@@ -2,7 +2,7 @@
    5 * 2^-53 (relative) of the exact count in that unit, plus 2^-49 of one second's worth, and monotone in the instant's count. *)
 From Coq Require Import ZArith Bool Lia ZifyBool List Reals Lra.
 From Flocq Require Import Core.Core IEEE754.BinarySingleNaN.
-From HF Require Import MachInt MachIntP GenConsts GenUnits Duration Epoch F64 DurationF64 Views SignedNs DurationP EpochP F64P F64ExactP F64ErrP F64MonoP ViewsP.
+From HF Require Import MachInt MachIntP GenConsts GenUnits Duration Epoch F64 DurationF64 Gregorian Views SignedNs DurationP EpochP F64P F64ExactP F64ErrP F64MonoP ViewsP.
 Open Scope Z_scope.
 
 Local Notation D := 86400000000000 (only parsing).
@@ -70,4 +70,50 @@ Proof.
   unfold to_unix, omap in R1, R2. rewrite Hd1 in R1. rewrite Hd2 in R2. cbn [option_map] in R1, R2.
   injection R1 as <-. injection R2 as <-.
   apply to_unit_monotone; [exact Cd1|exact Cd2|]. rewrite Vd1, Vd2. apply clamp_mono. lia.
+Qed.
+
+(* Epoch::day_of_year: the days elapsed in the year, plus one, within 2^-40 day (a tenth of a nanosecond) *)
+Theorem day_of_year_err e d : duration_in_year_fast e = Some d -> canon d -> 0 <= val d < 367 * D ->
+  exists r, day_of_year e = Some r /\ is_finite r = true /\
+            (Rabs (B2R r - (IZR (val d) / IZR D + 1)) <= bpow radix2 (-40))%R.
+Proof.
+  intros H C V. unfold day_of_year, omap. rewrite H. cbn [option_map].
+  eexists. split; [reflexivity|].
+  destruct (to_unit_err d Day C) as [FT ET]. cbv zeta in ET.
+  change (spec_unit_factor Day) with D in ET.
+  set (X := (IZR (val d) / IZR D)%R) in *. set (T := to_unit d Day) in *.
+  assert (X0 : (0 <= X < 367)%R).
+  { unfold X. assert (0 <= IZR (val d))%R by (apply IZR_le; lia).
+    assert (IZR (val d) < 367 * 86400000000000)%R by (replace (367 * 86400000000000)%R with (IZR (367 * D)) by (rewrite mult_IZR; reflexivity); apply IZR_lt; lia).
+    split; [apply Rmult_le_pos; [assumption|lra]|]. apply Rmult_lt_reg_r with 86400000000000%R; [lra|]. unfold Rdiv. rewrite Rmult_assoc, Rinv_l by lra. lra. }
+  assert (U : (bpow radix2 (-53) = / 9007199254740992)%R) by (change (-53) with (- (53)); rewrite (bpow_neg 53) by lia; reflexivity).
+  assert (B49 : (bpow radix2 (-49) = 16 * / 9007199254740992)%R)
+    by (change (-49) with (4 + - (53)); rewrite bpow_plus, (bpow_neg 53) by lia; simpl bpow at 1; change (2 ^ 53) with 9007199254740992; lra).
+  assert (B40 : (bpow radix2 (-40) = 8192 * / 9007199254740992)%R)
+    by (change (-40) with (13 + - (53)); rewrite bpow_plus, (bpow_neg 53) by lia; simpl bpow at 1; change (2 ^ 53) with 9007199254740992; lra).
+  unfold u53 in ET. rewrite U, B49 in ET. rewrite (Rabs_pos_eq X) in ET by lra.
+  assert (ET' : (Rabs (B2R T - X) <= 1900 * / 9007199254740992)%R).
+  { eapply Rle_trans; [exact ET|].
+    assert (5 * / 9007199254740992 * X <= 5 * / 9007199254740992 * 367)%R by (apply Rmult_le_compat_l; lra).
+    assert (16 * / 9007199254740992 / (86400000000000 / 1000000000) <= 16 * / 9007199254740992)%R.
+    { unfold Rdiv. rewrite <- (Rmult_1_r (16 * / 9007199254740992)) at 2. apply Rmult_le_compat_l; [lra|].
+      rewrite <- Rinv_1. apply Rinv_le_contravar; lra. }
+    lra. }
+  destruct (f_of_Z_exact 1) as [R1 F1]; [vm_compute; discriminate|].
+  pose proof (Bplus_correct 53 1024 Hp Hpe mode_NE T (f_of_Z 1) FT F1) as M. rewrite R1 in M.
+  set (z := (B2R T + 1)%R) in *.
+  assert (TB : (Rabs (B2R T) <= 368)%R).
+  { replace (B2R T) with (X + (B2R T - X))%R by ring. eapply Rle_trans; [apply Rabs_triang|]. rewrite (Rabs_pos_eq X) by lra. lra. }
+  assert (zb : (Rabs z <= 369)%R) by (unfold z; eapply Rle_trans; [apply Rabs_triang|]; rewrite Rabs_R1; lra).
+  rewrite Rlt_bool_true in M.
+  2:{ apply round_lt_emax. apply Rle_trans with 369%R; [exact zb|]. apply IZR_le. vm_compute. discriminate. }
+  destruct M as (M1 & M2 & _). split; [exact M2|].
+  fold (fadd T (f_of_Z 1)) in M1. rewrite M1.
+  pose proof (rnd_err z) as E. unfold u53 in E. rewrite U in E.
+  assert (TN : (tiny <= / 9007199254740992)%R).
+  { unfold tiny. apply Rle_trans with (bpow radix2 (-53)); [apply bpow_le; lia|]. rewrite U. lra. }
+  replace (round radix2 fexp64 (round_mode mode_NE) z - (X + 1))%R with ((round radix2 fexp64 (round_mode mode_NE) z - z) + (B2R T - X))%R by (unfold z; ring).
+  eapply Rle_trans; [apply Rabs_triang|]. rewrite B40.
+  assert (/ 9007199254740992 * Rabs z <= / 9007199254740992 * 369)%R by (apply Rmult_le_compat_l; lra).
+  lra.
 Qed.
